@@ -3,7 +3,7 @@ from .. import common as C, structs as S, clientgen as G, refcodec as R
 
 LEAN_MODULES = ["ZvtVerif.Properties.C11"]
 ASSUMPTIONS = ["payload directories are created under /verif/.build/scratch and removed after each case",
-               "read_at on a regular file returns min(len, size - offset) bytes",
+               "read_at on a regular file (or a symbolic link to one; one payload entry in four is a link) returns min(len, size - offset) bytes",
                "the announced list is compared as a set (sorted by id): the code iterates a HashMap"]
 
 
@@ -30,7 +30,8 @@ def gen_cases(spec, P, rng, n_dirs, thorough, wellformed=False):
             size = rng.choice([0, 1, 2, 255, 256, 1000, rng.randint(0, max_size), rng.randint(110, 132), rng.randint(238, 260)])
             seed = rng.randrange(1000)
             files[table[p]] = content(size, seed)
-            desc.append(f"{p}:{size}:{seed}")
+            # one entry in four is a symbolic link to the payload file (staged release trees): same size, same bytes
+            desc.append(f"{p}:{size}:{seed}" + (":l" if rng.random() < 0.25 else ""))
         for u in rng.sample(unrelated, rng.randint(0, 2)):
             desc.append(f"{u}:{rng.randint(0, 50)}:{rng.randrange(100)}")
         rng.shuffle(desc)
@@ -139,7 +140,7 @@ def run(ctx, out):
             i = next((j for j in range(min(len(r), len(w))) if r[j] != w[j]), min(len(r), len(w)))
             out.oracle_failures.append({"op": o[:400], "observed": "…" + r[max(0, i - 60):i + 200], "expected": "…" + w[max(0, i - 60):i + 200], "key": o[:200],
                                         "what": "firmware upload: announced list is not exactly the recognised files with their sizes / a data request is not answered with that id, offset and the file's bytes / a bad request does not end the upload with an error"})
-    out.rule = (f"{n_dirs} payload directories (any subset of the {len(paths)} recognised paths plus unrelated files, sizes 0..70000 (thorough: 200 KiB), deterministic content) x block sizes {{1,7,100,1024,32768,random, 110..132, 238..260 (BER length boundaries of the nested containers)}} x request scripts "
+    out.rule = (f"{n_dirs} payload directories (any subset of the {len(paths)} recognised paths plus unrelated files, a quarter of the entries symbolic links to the payload, sizes 0..70000 (thorough: 200 KiB), deterministic content) x block sizes {{1,7,100,1024,32768,random, 110..132, 238..260 (BER length boundaries of the nested containers)}} x request scripts "
                 "(0..6 requests: valid at offsets 0/1/size-1/size/size+1/beyond/random/block-aligned, repeated and overlapping, unknown id, missing id / offset / file / TLV) ending in completion, abort or end of connection. "
                 "The real WriteFile::into_stream against the scripted terminal; expected announcement and WriteData packets assembled by the reference encoder from the files' bytes. implementation = model = expectation")
     out.samples = [ops[1][:300], {"op": ops[-1][:200], "impl": impl[-1][:300]}]
